@@ -251,7 +251,9 @@ CLAIMED["C18"] = dict(
           "range atoms provable only when bounds and value are within 2^64 of each other (the documented 64-bit range technique). Rows - attribute list, one or two atoms, perturbation in {challenge, credential id, "
           "commitments, statement, proof bytes, proof version} - are replayed: a proof must be produced and verify exactly for provable unperturbed rows, revealed values are the committed ones, everything else "
           "must not verify. With ProofVersion::Version1, statements made only of range atoms verify under a different challenge or credential id (their range proofs use a private transcript): recorded as R1."),
-    note=("Verifiable presentations over identity / web3 credentials, v1 anchors and linking signatures are not bound yet: only attribute statements against account-credential commitments are covered."),
+    note=("Presentations are covered for account and web3 credentials of web3id (request -> prove_with_rng -> Presentation::verify, issuer-signed commitments, holder linking signatures) with perturbed context, public "
+          "data, credential id / holder, statement, borrowed proofs and borrowed linking proofs; the v1 presentation / anchor format and identity-credential presentations are not bound. An account credential id is "
+          "not part of the proof (the verifier looks commitments up by it)."),
     ref="4 C18")
 
 NOT_YET = {
